@@ -5,3 +5,6 @@ open Photon.File
 #print axioms C16_aligned_requests_write
 #print axioms C16_linear_pread
 #print axioms C16_stripe_pread
+#print axioms C16_aligned_pwrite
+#print axioms C16_linear_pwrite
+#print axioms C16_stripe_pwrite
